@@ -60,24 +60,41 @@ def run(ck):
     ldecl = listref["decl"]
 
     def leaf_for(N, sz):
-        def leaf(n):
-            if is_this_field(n, NF):
-                return N
+        def extra(n):
             if is_call(n, ("size", "count", "length")) and is_ref_to(skip_copies(n).get("obj"), ldecl):
                 return sz
             if is_call(n, ("isEmpty",)) and is_ref_to(skip_copies(n).get("obj"), ldecl):
                 return int(sz == 0)
             return None
-        return leaf
+        # the limit itself, or whatever members the constructor derives from it (an enum class, N - 1, ...): evaluated by cases
+        return S.count_leaf(N, extra)
+
+    def guards_decided(fn_, gg_, leaf_):
+        """every two-way branch of fn_ whose condition reads a member gets a value under leaf_ (otherwise reachability is not a verdict)"""
+        at = numeric_atom(fn_, leaf_)
+        for n_ in fn_.all_nodes():
+            if n_.get("k") in ("if", "while", "for", "cond") and isinstance(n_.get("cond"), dict):
+                c_ = n_["cond"]
+                if any(x.get("k") == "member" and x.get("dk") == "field" and "m_max" in (x.get("name") or "") or (x.get("k") == "member" and "etention" in (x.get("name") or "")) for x in walk(c_)):
+                    from engine.cfg import eval_cond
+                    if eval_cond(c_, at, fn_) is None:
+                        return False
+        return True
 
     # ---- O1
     bad = []
+    undecided_guard = False
     for N in (-3, -1, 0):
         for sz in (0, 1, 5):
-            live = g.live(g.projector(numeric_atom(ro, leaf_for(N, sz))))
+            lf_ = leaf_for(N, sz)
+            live = g.live(g.projector(numeric_atom(ro, lf_)))
             if rs in live:
-                bad.append((N, sz))
-    ck.ob("C06-O1", sitestr(ro, removes[0]), not bad, "for N in {-3,-1,0} the remove is unreachable whatever the number of rotated files" if not bad else
+                if guards_decided(ro, g, lf_):
+                    bad.append((N, sz))
+                else:
+                    undecided_guard = True
+    ck.ob("C06-O1", sitestr(ro, removes[0]), (not bad) if (bad or not undecided_guard) else None, "for N in {-3,-1,0} the remove is unreachable whatever the number of rotated files" if not bad and not undecided_guard else
+          "the guards of removeOldFiles() read members whose value for N <= 0 could not be tabulated from the constructor" if not bad else
           "with (N, |rotated|) = %s a file is deleted although the limit is <= 0" % bad[:3], key="removeOldFiles|deletes-when-unlimited")
     # ---- O3: loop condition
     loops = [l for l in find_loops(ro) if any(a.get("id") == l["id"] for a in ro.ancestors(removes[0]))]
@@ -165,14 +182,14 @@ def run(ck):
     # ---- O2
     bad = []
     for N in (1,):
-        live = gr.live(gr.projector(numeric_atom(rt, lambda n, N=N: N if is_this_field(n, NF) else None)))
+        live = gr.live(gr.projector(numeric_atom(rt, S.count_leaf(N))))
         for c in closes + renames:
             if gr.site_of(c) in live:
                 bad.append(describe(c)[:40])
     ck.ob("C06-O2", sitestr(rt), not bad, "with N == 1 rotate() returns before close/rename" if not bad else "with N == 1 rotate() still executes %s" % bad, key="rotate|rotates-with-one")
     bad = []
     for N in (-1, 0, 2, 5):
-        live = gr.live(gr.projector(numeric_atom(rt, lambda n, N=N: N if is_this_field(n, NF) else None)))
+        live = gr.live(gr.projector(numeric_atom(rt, S.count_leaf(N))))
         if not all(gr.site_of(c) in live for c in closes + renames):
             bad.append(N)
     ck.ob("C06-O2", sitestr(rt), not bad, "with N in {-1,0,2,5} rotation is performed" if not bad else "rotation is disabled for N in %s" % bad, key="rotate|disabled-for-other-n")
@@ -517,3 +534,38 @@ def retention_victim_is_oldest(ck, S, RID):
     if is_call(victim, ("at", "operator[]", "value")) or (isinstance(victim, dict) and victim.get("k") == "call" and victim.get("op") == "[]"):
         first_end = True
     ordering(ck, S, first_end, RID, RID)
+
+
+def unlimited_deletes_nothing(ck, S, rid):
+    """with maxFileCount <= 0 retention deletes nothing, whatever members the constructor derives from the count (shared with C10:
+    'not deleting beyond the retention policy')"""
+    ro = S.m["removeOldFiles"]
+    g = S.g(ro)
+    removes = [n for n in ro.calls() if destructive_kind(n) == "remove"]
+    if len(removes) != 1:
+        ck.ob(rid, sitestr(ro), None, "removeOldFiles has %d remove calls" % len(removes), key="removeOldFiles|deletes-when-unlimited")
+        return
+    rs = g.site_of(removes[0])
+    lists = {skip_copies(x.get("obj")).get("decl") for x in ro.calls() if is_call(x, ("size", "count", "length", "isEmpty")) and isinstance(x.get("obj"), dict) and skip_copies(x["obj"]).get("k") == "ref"}
+    bad, unk = [], False
+    for N in (-3, -1, 0):
+        for sz in (0, 1, 5):
+            def extra(n, sz=sz):
+                if is_call(n, ("size", "count", "length")) and skip_copies(skip_copies(n).get("obj") or {}).get("decl") in lists:
+                    return sz
+                if is_call(n, ("isEmpty",)) and skip_copies(skip_copies(n).get("obj") or {}).get("decl") in lists:
+                    return int(sz == 0)
+                return None
+            lf = S.count_leaf(N, extra)
+            if rs in g.live(g.projector(numeric_atom(ro, lf))):
+                at = numeric_atom(ro, lf)
+                from engine.cfg import eval_cond
+                conds = [n_["cond"] for n_ in ro.all_nodes() if n_.get("k") in ("if", "while", "for") and isinstance(n_.get("cond"), dict) and
+                         any(x.get("k") == "member" and x.get("dk") == "field" for x in walk(n_["cond"]))]
+                if all(eval_cond(c_, at, ro) is not None for c_ in conds):
+                    bad.append((N, sz))
+                else:
+                    unk = True
+    ck.ob(rid, sitestr(ro, removes[0]), False if bad else None if unk else True,
+          "with (maxFileCount, rotated files) = %s retention deletes a file although the limit is <= 0 ('keep everything')" % bad[:3] if bad else
+          "the guards of removeOldFiles() could not be evaluated for maxFileCount <= 0" if unk else "with maxFileCount in {-3,-1,0} retention deletes nothing", key="removeOldFiles|deletes-when-unlimited")
